@@ -117,6 +117,8 @@ MayStart(i) ==
   /\ \A p \in UpstreamOf(i) : p \in iv.exp => p \in iv.doneOK
   /\ PoolRoom(i)
 
+\* statements whose recorded dependencies ninja did not consult in this invocation (hook at the call site)
+SkipRec == {i \in iv.skipped : UsesDeps(St(g, i)) /\ L[i].rec # {}}
 THook ==
   /\ Is("H")
   /\ iv' = IF iv.active /\ E.h = "DepsSkipped" /\ E.s # 0 THEN [iv EXCEPT !.skipped = @ \cup {E.s}] ELSE iv
@@ -124,7 +126,8 @@ THook ==
                 /\ BudgetLeft /\ Cardinality(iv.run) < (IF iv.tok < 0 THEN iv.j ELSE 1 + iv.tok)
                 /\ \E i \in Ids(g) : MayStart(i)
              THEN viol \cup {V("C06", "waits although a command is startable and a slot is free",
-                               IF {i \in Ids(g) : MayStart(i)} \subseteq iv.kfT THEN "KF-FAIL-TOUCHED" ELSE "")}
+                               IF {i \in Ids(g) : MayStart(i)} \subseteq iv.kfT THEN "KF-FAIL-TOUCHED"
+                               ELSE IF SkipRec # {} /\ {i \in Ids(g) : MayStart(i)} \subseteq (iv.exp \ iv.expS) THEN "KF-DEPS-SKIPPED" ELSE "")}
              ELSE viol
   /\ UNCHANGED <<meta, g, L, F, FT, prev, relax, taint, afterCrash, tw, stats>> /\ Step
 
@@ -156,7 +159,8 @@ TStart ==
          LM == LNoRec(L, {i})
          notReadyM == notReady \cap Producers(g, T, LM, i)
          kf4 == IF notReady \subseteq iv.kfT THEN "KF-FAIL-TOUCHED"
-                ELSE IF notReadyM \subseteq iv.kfT /\ i \in iv.skipped THEN "KF-DEPS-SKIPPED" ELSE ""
+                ELSE IF notReadyM \subseteq iv.kfT /\ i \in iv.skipped THEN "KF-DEPS-SKIPPED"
+                ELSE IF SkipRec # {} /\ notReady \subseteq (iv.exp \ iv.expS) THEN "KF-DEPS-SKIPPED" ELSE ""
          v4 == (IF notReady # {} /\ ~taint
                 THEN {V("C04", "command started before a producer of one of its inputs finished", kf4)} ELSE {})
                \cup (IF ~E.dirs THEN {V("C04", "output or depfile directory missing at start", "")} ELSE {})
